@@ -102,4 +102,3 @@ func vfExistsXY(label string, k int, pred func(XY) bool) {
 	}
 	panic(vfAssertFailed{label})
 }
-
